@@ -135,3 +135,13 @@ Ltac unfold_quat :=
 From CG Require Import Model.Projection.
 Ltac unfold_proj :=
   cbv [m4_ortho m4_frustum m4_perspective m4_planar to_perspective guard abs_diff_ne_d nat_c] in *.
+
+From CG Require Import Model.Metric Model.Rotation.
+Ltac unfold_rot :=
+  cbv [m2_from_angle m3_from_angle_x m3_from_angle_y m3_from_angle_z m3_from_axis_angle
+       m4_from_angle_x m4_from_angle_y m4_from_angle_z m4_from_axis_angle sc ang_sin_cos
+       quat_from_axis_angle quat_from_angle_x quat_from_angle_y quat_from_angle_z
+       basis2_from_angle basis2_one basis2_mul basis2_rotate_vector basis2_rotate_point basis2_invert
+       basis3_from_quaternion basis3_one basis3_mul basis3_rotate_vector basis3_rotate_point basis3_invert
+       basis3_from_axis_angle basis3_from_angle_x basis3_from_angle_y basis3_from_angle_z
+       URad UDeg to_rad of_rad full_turn fst snd] in *.
